@@ -988,6 +988,52 @@ def gen_family(rng):
             'feature': 'family-' + mode}
 
 
+def family_corpus():
+    '''Fixed sweep-only decks: a flagged surface of a family the pool of the
+    tie stream does not hold, moved by TR / TRCL / FILL (the flag has to
+    travel through transformation() with the surface).'''
+    def card(i, flag, text, tr=None):
+        d = {'id': i, 'flag': flag, 'text': text, 'mcnp': 1,
+             'cls': 2000 + FAMILIES.index(text), 'aux': [], 'single': True,
+             'pool': None, 'locus': text}
+        if tr:
+            d['tr'] = tr
+        return d
+
+    def plain(surfs, trs, trcl=None):
+        lits = [-s['id'] for s in surfs]
+        cell = {'id': 1, 'imp': 1, 'expr': ' '.join(map(str, lits)),
+                'refs': sorted(abs(x) for x in lits)}
+        if trcl:
+            cell['trcl'], cell['order'] = trcl, lits
+        return {'surfs': surfs, 'trs': trs, 'fault': None, 'feature': 'corpus',
+                'cells': [cell, {'id': 2, 'imp': 0, 'expr': str(surfs[0]['id']),
+                                 'refs': [surfs[0]['id']]}]}
+    rot = [float(x) for x in FAMILY_TRS[3].split()]
+    out = [plain([card(5, '*', FAMILIES[26], 7), card(9, '', 'so 6')], {7: rot}),
+           plain([card(5, '+', FAMILIES[27]), card(9, '', 'so 6')], {},
+                 FAMILY_TRS[4]),
+           plain([card(5, '*', FAMILIES[29], 7), card(9, '', 'so 6')],
+                 {7: [1.0, 0.0, 0.0]}),
+           plain([card(5, '+', FAMILIES[31], 7), card(9, '*', 'p 1 2 -1 3')],
+                 {7: rot}),
+           plain([card(5, '*', FAMILIES[22]), card(9, '', 'so 6')], {},
+                 FAMILY_TRS[5])]
+    shift = FAMILY_TRS[1]
+    split, a, b = card(5, '*', FAMILIES[28]), card(9, '', 'so 6'), card(3, '', 'pz 1')
+    ucell = lambda cid, lits: {'id': cid, 'imp': 1, 'opts': ' u=1',
+                               'expr': ' '.join(map(str, lits)),
+                               'refs': sorted({abs(x) for x in lits}),
+                               'fillshift': shift}
+    out.append({'surfs': [split, a, b], 'trs': {}, 'fault': None,
+                'feature': 'corpus',
+                'cells': [{'id': 1, 'imp': 1, 'expr': '-9 3', 'refs': [3, 9],
+                           'opts': f' fill=1 ({shift})'},
+                          ucell(2, [-5]), ucell(3, [5]),
+                          {'id': 4, 'imp': 0, 'expr': '9', 'refs': [9]}]})
+    return out
+
+
 def gen_rich(rng):
     if rng.random() < 0.4:
         return gen_family(rng)
@@ -1380,11 +1426,15 @@ def run(res, tier, seed, proofs_ok):
                       found_input=False)
 
     # ---- 4. sweep outside the model ----
-    for i in range(n_rich):
-        if cov is not None and i in (0, 120):
-            sys.settrace(cov._global if i == 0 else None)   # first 120 traced
-        deck = gen_rich(rng)
-        args = args_for(rng)
+    fam = family_corpus()
+    for i in range(-len(fam), n_rich):
+        if cov is not None and i in (-len(fam), 120):
+            sys.settrace(cov._global if i < 0 else None)    # first ones traced
+        if i < 0:
+            deck, args = fam[i], (['--skip-deduplication'] if i % 2 else [])
+        else:
+            deck = gen_rich(rng)
+            args = args_for(rng)
         conv, t4, _ = observe(deck, args)
         text = render(deck)
         res.seen((text, args), nontrivial=True)
